@@ -19,6 +19,19 @@ CHECKS = {
         technique="TLA+ history model (ContextDb.tla) model-checked with TLC; every reachable model state replayed "
                   "into the implementation",
         ref="DESIGN.md §5 C14"),
+    'C15': dict(
+        text="TLC checks NeverOutside and InsideIsRead on a step-by-step model of the resolution algorithm (join, "
+             "realpath with one symlink hop per step, containment, implicit extension, isfile) for every layout x base x "
+             "request up to the bound; the as_implemented variant (string-prefix test before the extension) must give a "
+             "TLC counterexample; every (layout, base, request) is then executed on real directories through "
+             "read_input_file and latex_to_text('\\input{..}') and judged by Tier A on the identity of the file whose "
+             "content came back.",
+        note="Bounded: 9 optional layout entries (all subsets), 19 request components, <=2 components exhaustively and "
+             "<=3 on the richest layouts, relative and absolute, base given directly or via symlink. POSIX symlink "
+             "semantics as modelled by posixpath.realpath are part of the model (trusted transcription).",
+        technique="TLA+ model of file-system layouts and the resolution steps (InputFile.tla), TLC; every model behaviour "
+                  "replayed on real directories",
+        ref="DESIGN.md §5 C15"),
     'C20': dict(
         text="TLC checks the scanner model against the statement (TableOK, Complete, termination) for every string up "
              "to the bound and every offset triple; every table TLC prints is compared position by position with the "
